@@ -16,18 +16,28 @@ Theorem C03_split_shape :
 Proof. exact get_lines_shape. Qed.
 
 (** (2) The stdin driver: the records of the run are the records of the lines,
-    each executed alone from fresh registers, concatenated in input order; the
-    output is the rendering of that list. *)
+    each executed alone from fresh registers, in input order; outside JSON the
+    output is the outputs of the lines, each formatted on its own, put together
+    in input order (JSON is one document over the concatenated records). *)
 Theorem C03_stdin_records :
   forall (unit : option text -> text -> outcome (list record)) (o : dopts) (input : text)
          (s : dstate) (rs : list (list record)) (output : text),
     units_seq unit None (get_lines input) = Ok rs ->
-    format_output (do_fmt o) (concat rs) = Ok output ->
+    format_linewise o rs = Ok output ->
     linewise_stdin unit o input s = (out s (output ++ [10]), Done).
 Proof.
   intros unit o input s rs output Hu Hf. unfold linewise_stdin. now rewrite Hu, Hf.
 Qed.
-
+Print Assumptions C03_stdin_records.
+Theorem C03_linewise_is_concatenation :
+  forall (o : dopts) (rs : list (list record)) (ts : list text),
+    do_json o = false ->
+    Forall2 (fun r t => format_output (do_fmt o) r = Ok t) rs ts ->
+    format_linewise o rs = Ok (concat ts).
+Proof.
+  intros o rs ts Hj H. unfold format_linewise. rewrite Hj. now apply fmt_units_concat.
+Qed.
+Print Assumptions C03_linewise_is_concatenation.
 (** (3) Renderings concatenate: template and delimiter output of the
     concatenated records is the concatenation of the per-line outputs. *)
 Theorem C03_template_concat :
